@@ -16,7 +16,12 @@ struct Ctx {
     Ctx(std::ostream& o, Game& g) : os(o), game(g), cmds(0) {}
     void log(const std::string& kind, const std::string& extra, bool ok) {
         Position pos = game.getPos();
+        // the history the console game hands to its engine player (tuigame -> ComputerPlayer::getCommand): the positions before the
+        // current one, back to the last zeroing move
+        std::vector<Position> hist;
+        game.getHistory(hist);
         os << "{\"e\":\"GameCmd\",\"kind\":\"" << kind << "\"" << extra << ",\"ok\":" << (ok ? "true" : "false")
+           << ",\"histLen\":" << hist.size() << ",\"histFirstClock\":" << (hist.empty() ? -1 : hist[0].getHalfMoveClock())
            << ",\"state\":" << (int)game.getGameState() << ",\"offer\":" << (game.haveDrawOffer() ? "true" : "false")
            << "," << posFieldsJ(pos) << "}\n";
         cmds++;
